@@ -8,7 +8,8 @@
 // (batch-torn), and a batch whose commit is made to fail (batch-partial).  Histories also
 // commit batches that must change nothing (no mutations, only over-limit sets, only deletes
 // of absent keys; noop.go), and a concurrent family runs single-writer-per-key writers next
-// to Flush calls on one write buffer (conc.go).
+// to Flush calls on one write buffer (conc.go); generation-stamped batches of up to 6000 sets are
+// committed on the memory store and the write buffers next to Get readers (gen.go).
 package main
 
 import (
@@ -16,6 +17,7 @@ import (
 	"io"
 	"log"
 	"os"
+	"strings"
 	"sync"
 	"time"
 
@@ -40,7 +42,8 @@ func run(r *ev.Run) {
 	r.Assume(fmt.Sprintf("size limits are the documented constants sorted.MaxKeySize=%d and sorted.MaxValueSize=%d; a mutation over a limit is silently skipped (Set returns nil, previous value stays), as kvtest.testInsertTooLarge and the property statement say", sorted.MaxKeySize, sorted.MaxValueSize))
 	r.Assume("the KeyValue interface says nothing about empty keys and NUL bytes; keys are non-empty and keys/values NUL-free")
 	r.Assume("a batch is built and committed without interleaved calls from the same goroutine; iterators are closed before the next call (sqlite holds a gate for both)")
-	r.Assume("batch unity under concurrency is judged only for leveldb, sqlite and kv (documented transactional batches); memory and buffer are reported, not judged")
+	r.Assume("batch unity under concurrency is judged only for leveldb, sqlite and kv (documented transactional batches); memory and buffer are reported, not judged there (memdb iterators are live, and the buffer deletes from its backing store in a second step)")
+	r.Assume("the memory KeyValue and the write buffer make a batch one unit for Get by their own locking (memory: CommitBatch and Get take one mutex; buffer: CommitBatch and Get under its read lock, Flush under its write lock, Get asks the memory layer first): next to a writer whose batches set all n keys to one generation, the generations a reader's successive Gets return never decrease and lie between the batches completed before and started after; range scans and batches with deletes are not judged under concurrency on these two")
 	r.Assume("failed-commit atomicity is forced by committing after Close on leveldb and kv (clean error); on sqlite by a statement of the batch that the database refuses (a harness-installed trigger raises ABORT for one poisoned key, first / inside / last in the batch) and by Close between BeginBatch and CommitBatch; buffer with an injected backing error is reported, not judged; kv file has no control point for a failure in the middle of a batch (modernc kv accepts a delete of any key length; its writes reach the file only at commit)")
 	r.Assume("the optional interfaces are judged by their documentation in pkg/sorted/kv.go: after Wiper.Wipe the store is the empty map and goes on as a map; reads through a ReadTransaction equal the map as it was at BeginReadTx (later writes are interleaved only on leveldb: the sqlite transaction holds the store's gate until closed)")
 
@@ -144,6 +147,32 @@ func run(r *ev.Run) {
 			}()
 		}
 	}
+	// generation-stamped batches of many sets next to Get readers (gen.go)
+	nGen := r.Pick(4, 12)
+	for _, site := range genBatchSites() {
+		for round := 0; round < nGen; round++ {
+			site, round := site, round
+			base, buffered := site, false
+			if strings.HasPrefix(site, "buffer-") {
+				base, buffered = strings.TrimPrefix(site, "buffer-"), true
+			}
+			id := fmt.Sprintf("genbatch/%s#%d;", site, round)
+			if !r.Only(id) || (buffered && flushHangs[base]) {
+				continue
+			}
+			wg.Add(1)
+			go func() {
+				defer wg.Done()
+				sem <- struct{}{}
+				defer func() { <-sem }()
+				t0 := time.Now()
+				genBatchWatch(r, root, id, site, base, buffered, round)
+				if debugTiming {
+					fmt.Fprintf(os.Stderr, "TIMING %s %v\n", id, time.Since(t0))
+				}
+			}()
+		}
+	}
 	wg.Wait()
 	if debugTiming {
 		dumpTimings()
@@ -183,6 +212,9 @@ func run(r *ev.Run) {
 	}
 	r.Require("conc_flush_ran", "buffer-memory", "buffer-leveldb", "buffer-kv", "buffer-sqlite")
 	r.Require("conc_flush_shapes", "explicit-only/many-keys", "explicit-only/hot-keys", "auto-flush-4096", "auto-flush-64")
+	r.Require("gen_batch_ran", genBatchSites()...)
+	r.Require("gen_batch_reads_overlapping_a_commit", genBatchSites()...)
+	r.Require("gen_batch_sizes", "2-5", "16-115", ">=1000", ">=4000")
 	r.Require("torn_subcheck_ran", names...)
 	r.Require("torn_reads_overlapping_a_commit", judged...)
 	r.Require("failed_batch_forced", "leveldb", "kv", "sqlite")
